@@ -102,6 +102,26 @@ def task(desc):
             args += ["-m"] + desc["argmaps_opt"]
         if desc["no_base"]:
             args += ["--no-base-argmaps"]
+        ctx = desc.get("context") or []
+        if "checkpoint" in ctx:
+            # a checkpoint exists and every target has a change since: the same selection, reached through change detection
+            r.mr("checkpoint", "update")
+            for n_ in names:
+                r.write(os.path.join(n_, "changed.txt"), "x\n")
+        if "prior-failed" in ctx:
+            r.set_script(names[0], desc["commands"][0], ["exit 1"], argv0=expect_exe[(names[0], desc["commands"][0])], nth=1)
+        if "prior-failed" in ctx or "prior-ok" in ctx:
+            r.mr(*args, env=r.trace_env())
+        if "listener" in ctx:
+            import subprocess, time
+            lis = subprocess.Popen([common.MONORAIL, "log", "tail", "--stdout", "--stderr"], cwd=r.dir, env=s.env(),
+                                   stdout=subprocess.DEVNULL, stderr=subprocess.DEVNULL, start_new_session=True)
+            s.popens.append(lis)
+            t_end = time.time() + 10
+            while not sc.port_listening(r.log_port):
+                if lis.poll() is not None or time.time() > t_end:
+                    raise common.EngineError("context: log tail did not start")
+                time.sleep(0.02)
         r.clear_traces()
         if desc.get("foreign"):
             r.foreign_cwd()   # monorail is invoked as `-f <abs config>` from another directory
@@ -188,6 +208,14 @@ def scenarios(tier):
             files = [{"base": "args", "m1": "args", "m2": None}, {"base": "args", "m1": "nocmd", "m2": "args"}]
             out.append({"targets": 2, "commands": ["build", "test"], "files": files, "argmaps_opt": ["m1", "m2"], "no_base": False,
                         "args": None, "argdir": argdir, "cmdsrc": cmdsrc, "vocab": plain, "foreign": True})
+    # (2e) the surroundings of a run: an earlier failed / successful run's records on disk, a checkpoint with
+    # every target changed since, a listener attached
+    for ctx in (["prior-failed"], ["prior-ok"], ["checkpoint"], ["listener"], ["prior-failed", "checkpoint", "listener"]):
+        for cmdsrc in ("default", "defpath"):
+            for o in (None, ["m2", "m1"]):
+                files = [{"base": "args", "m1": "args", "m2": None}, {"base": "args", "m1": "nocmd", "m2": "args"}]
+                out.append({"targets": 2, "commands": ["build", "test"], "files": files, "argmaps_opt": o, "no_base": False,
+                            "args": None, "argdir": "default", "cmdsrc": cmdsrc, "vocab": plain, "context": ctx})
     # (3) --args with one command and one explicit target
     arg_sets = [[v] for v in VOCAB if not v.startswith("-")] + [["x", "y z"], ["", ""], ["a\nb", "*"]]
     for a in arg_sets:
